@@ -16,9 +16,15 @@ def lines_of(text):
     return ls
 
 
+_STRUCTURAL_TAB = re.compile(r'(?<![^\W\d_])\t')      # a tab that does not directly follow a letter
+
+
 def in_domain(text):
-    if '\t' in text or text == '':
-        return 'tab or empty'
+    # a tab inside the indentation or after a marker is expanded relative to its column, which the embedding shifts
+    # (the statement's 'W spaces before every other line' does not preserve such lines); a tab that directly follows
+    # a letter is ordinary content and must survive
+    if text == '' or _STRUCTURAL_TAB.search(text):
+        return 'structural tab or empty'
     ls = lines_of(text)
     if not ls or ls[-1].strip() == '':
         return 'ends in a blank line'
@@ -70,6 +76,8 @@ def check_quote(case):
     except Exception as exc:
         return Out(Fail('quote-wraps', 'raised ' + exc_sig(exc), text=text, embedded=emb, tokens=tokens), nt=nt, labels=labels)
     want_children = [['Quote', {}, plain[2]]]
+    if '\t' in text:
+        labels += ('content-tab',)
     if got[2] != want_children:
         from ..oracle import astdump
         diff = astdump.first_difference(['Document', {}, got[2]], ['Document', {}, want_children])
@@ -142,7 +150,7 @@ def check_list(case):
 
 def draw_text(t):
     _, text = pools.any_text(t, 200)
-    text = text.replace('\t', ' ').rstrip('\n')
+    text = _STRUCTURAL_TAB.sub(' ', text).rstrip('\n')      # tabs that directly follow a letter stay
     ls = text.split('\n')
     while ls and ls[-1].strip() == '':
         ls.pop()
@@ -152,7 +160,7 @@ def draw_text(t):
 class QuoteLaw(HypPart):
     name = 'quote-law'
     budget = {'quick': 7000, 'thorough': 400000}
-    rule = ('tab-free texts not ending in a blank line from pools G0-G4; every line prefixed with "> " or ">" (bare only where the line '
+    rule = ('texts from pools G0-G4 not ending in a blank line, whose only tabs directly follow a letter (content, not indentation); every line prefixed with "> " or ">" (bare only where the line '
             'does not start with a space) after 0-3 spaces; dump(Document(embedded)) without line numbers must equal Document[Quote[children '
             'of dump(Document(text))]] with equal definitions; non-trivial = >= 2 blocks or a container or a code block')
 
